@@ -1,4 +1,4 @@
-/* known_id: C16-cas-xchg-arg-unconverted */
+/* fixed: the value argument of compare-exchange / exchange was not converted to the object type */
 /* expect:
 4000000000
 1 4000000000
